@@ -55,6 +55,14 @@ func genC02(level int) []*CacheScen {
 				}
 			}
 		}
+		// the remaining methods of the API (thin variants of the ones above) against a selection of partners
+		for _, a := range []CIn{{Op: CSetDefault}, {Op: CSetForever}, cGetExp, {Op: CItems}} {
+			for _, b := range []CIn{cSet, cSetTTL, cGaD, cDelExp, cGaR} {
+				for _, ini := range []int{ILive, IExpired} {
+					add(&CacheScen{Rel: RelSS, NKeys: 2, Init: []int{ini, IAbsent}, Table: TPlain, Threads: [][]CIn{{con(a, 0)}, {con(b, 0)}}})
+				}
+			}
+		}
 		// the same pairs (a selection) on a cache with a history: grown, shrunk back, cleaned up once
 		for _, a := range []CIn{cSet, cGaS, cGaR, cGaD, cDelExp, cClear} {
 			for _, b := range []CIn{cGet, cSetTTL, cGoS, cCDel, cDelete, cDelExp, cRange} {
